@@ -141,7 +141,12 @@ func (c *wsConn) nextMessage() {
 		close(c.incoming)
 		return
 	}
-	c.incoming <- r
+	select {
+	case c.incoming <- r:
+	case <-c.exiting:
+		// the connection routine has exited (context cancelled, closed, timed
+		// out): nobody will take this message, do not wait for ever
+	}
 }
 
 // nextWriter waits for writeLk and invokes the cb callback with WS message
